@@ -184,8 +184,13 @@ def run_case(case, ctx):
     # the same search as made by the replacement routine (replacement = the pattern itself)
     try:
         events.seed_all(case["s"])
+        n_log = len(events.LOG)
         mofun.replace_pattern_in_structure(atoms, patoms, patoms, atol=atol, ignore_atoms_should_not_be_deleted_twice=True)
-        st.count("searches_through_replace")
+        # (a replacement routine that does not go through the public search function makes no search this check could judge)
+        if any(e["ev"] == "find.call" for e in events.LOG[n_log:]):
+            st.count("searches_through_replace")
+        else:
+            st.count("replacements_that_did_not_call_the_public_search")
     except Exception as e:
         if type(e).__name__ == "PostBroken":
             raise
